@@ -401,6 +401,35 @@ CHECKS["C08"] = dict(
          "residuals of the user's model, Huber closed form) in float runs. Not judged: equal-loss ties, x/0 ratios, "
          "non-finite runs, weights, non-power-of-two hyper-parameters.")
 
+CHECKS["C07"] = dict(
+    cat="model_checking", ref="DESIGN.md §5 C07",
+    technique="TLA+ spec NormalEq.tla (exact dyadic transcription of the documented GN / LM systems: stacking, weight "
+              "broadcasting and block-diagonal expansion, corrector, (WJ, -WR), A_0 = clamp_diag(J'WJ), A_k = A_(k-1) + "
+              "lambda_k diag(A_(k-1)), b = -J'WR, column layouts, split of delta, update kinds; true Jacobian by dual numbers "
+              "from LieJac) model-checked by TLC (NormalEqMC); spec->code table (NormalEqGen) replayed on the real optimizers; "
+              "real GN/LM executions with a recording solver / strategy / corrector judged by TLC (NormalEqTrace)",
+    text="TLC checks for every model shape (1-3 parameters of kinds Euclidean/algebra/group, batched, every frozen subset, 1-2 "
+         "residual blocks, every broadcastable weight shape) that tangent columns and residual rows partition the system, that "
+         "the four column layouts project onto the tangent coordinates, that delta is split as a partition, and that the "
+         "block-diagonal weight equals an independent recursive definition of broadcasting; for every small integer system "
+         "that A_k has the closed-form diagonal clamp(H_ii) prod(1+lambda_j), untouched off-diagonal, is symmetric, that b and "
+         "H are minus half the gradient and half the Hessian of the weighted quadratic model, that a consistent GN system is "
+         "solved by its delta and a solution of the normal form minimises |W(J delta + R)|; that the rotation-free retraction is "
+         "the left translation and differs to first order from addition. Conformance: every tabulated system is replayed on "
+         "the real LM (all trials of a call, rejections forced by the solver) and GN and compared exactly; on random lattice "
+         "models (c04 programs and integer linear maps, float32/float64, vectorize on/off, weights as constructor/step "
+         "argument, correctors incl. FastTriggs and Triggs with exact polynomial kernels) TLC recomputes residuals, the true Jacobian, W, "
+         "A_k, b from the model description and compares them with what the solver received after projecting the padding "
+         "columns, validates the parameter points the model is evaluated at (group: Exp(delta)@X exactly; generic delta to "
+         "first order; frozen untouched), and judges the default PINV / Cholesky steps through integer ulp measures of the "
+         "normal equations, null-space orthogonality and A_1 delta = b.",
+    note="Trusted: TLC; LieJac/LieRing (C04); the driver's dyadic codec and its exact-Fraction measures for the default "
+         "solvers (the systems they are computed from are re-derived by TLC). Asymmetric weights (outside SPD), generic "
+         "kernels (C09), the sparse backend, generic (non first-order) retractions and the accept/reject decision are not decided "
+         "here. Finds on the unchanged tree: any requires_grad=False parameter makes GN/LM raise and, once the columns are "
+         "dropped, the split pairs slices with the wrong parameters (keys frozen/*/*/raised, frozen/step/*/trial_point); weights "
+         "with an inner batch extent 1 are tiled instead of broadcast (keys w=interior1/step/*); repair in notes/C07.fix.diff.")
+
 REASON_TODO = "check not built yet in this session (planned, see DESIGN.md §5); nothing is claimed for it"
 
 
